@@ -159,6 +159,7 @@ def run(rep):
             d = seeded_pipeline(seed, kind, n).prefetch(1, 2)
             e = seeded_pipeline(seed, kind, n).prefetch(2, 2) if kind not in ('local', 'two', 'apply_reshuffle', 'apply_reshuffle_map') else None
             fz_src = seeded_pipeline(seed, kind, n) if kind not in ('local', 'two') else None
+            frozen_hist = []
             for epoch in range(3):
                 outs = []
                 for ds in (a, b, c, d, e):
@@ -173,6 +174,14 @@ def run(rep):
                     if o1 != [repr(x) for x in fzc]:
                         fails.append(('frozen_copy_not_fixed', {'kind': kind, 'seed': seed}))
                     outs.append(o1)
+                    # frozen copies of EARLIER epochs, and copies of them, keep their order whatever happened since
+                    for e0, (old, order) in enumerate(frozen_hist):
+                        for vname, view in (('itself', old), ('copy()', old.copy()), ('copy(freeze=True)', old.copy(freeze=True))):
+                            if [repr(x) for x in view] != order:
+                                fails.append(('frozen_copy_changed_later', {'kind': kind, 'seed': seed, 'n': n, 'frozen_in_epoch': e0,
+                                                                            'observed_in_epoch': epoch, 'view': vname}))
+                                break
+                    frozen_hist.append((fzc, o1))
                 bad = [i for i, o in enumerate(outs) if o != outs[0]]
                 if bad == [2] and kind in ('reshuffle_tile', 'reshuffle_self_concat'):
                     # known finding F20: copy() gives every occurrence of a repeated object its own copy
